@@ -36,6 +36,8 @@ def execute(spec, ctx):
         counts.add(len(res[0]))
     if spec["seed"] % 3 == 0:
         findcheck.reuse_phase(ctx, spec, structure, pattern, "c02")
+    elif spec["seed"] % 3 == 1:
+        findcheck.relisted_phase(ctx, spec, structure, "c02")
     if findcheck.planted_must(spec) or ref is not None:
         ctx.key(spec["cell"], spec["positions"], spec["pattern"], spec["atol"], spec["hints"])
 
